@@ -7,13 +7,21 @@ import select
 import traceback
 
 
-def pmap(func, items, jobs):
+import signal
+import time
+
+
+def pmap(func, items, jobs, timeout_s=None, on_timeout=None):
+    """Parallel map over forked children. With timeout_s, a child that runs longer is killed and its result is
+    on_timeout(item) (a stuck native solver call cannot be interrupted from inside the process)."""
     items = list(items)
-    if jobs <= 1 or len(items) <= 1:
+    if (jobs <= 1 or len(items) <= 1) and timeout_s is None:
         return [func(x) for x in items]
+    jobs = max(1, jobs)
     results = [None] * len(items)
     pending = list(enumerate(items))
     running = {}   # fd -> (pid, idx, buffer)
+    started = {}
 
     def spawn(idx, item):
         r, w = os.pipe()
@@ -31,11 +39,26 @@ def pmap(func, items, jobs):
                 os._exit(0)
         os.close(w)
         running[r] = (pid, idx, bytearray())
+        started[r] = time.time()
 
     while pending or running:
         while pending and len(running) < jobs:
             idx, item = pending.pop(0)
             spawn(idx, item)
+        if timeout_s is not None:
+            now = time.time()
+            for fd in list(running):
+                if now - started[fd] > timeout_s:
+                    pid, idx, buf = running.pop(fd)
+                    try:
+                        os.kill(pid, signal.SIGKILL)
+                    except OSError:
+                        pass
+                    os.close(fd)
+                    os.waitpid(pid, 0)
+                    results[idx] = on_timeout(items[idx]) if on_timeout else None
+        if not running:
+            continue
         ready, _, _ = select.select(list(running), [], [], 1.0)
         for fd in ready:
             chunk = os.read(fd, 1 << 16)
